@@ -385,12 +385,29 @@ def rule_refcell(text, ctx):
     return text
 
 
-def rule_btree_iter(text, ctx):
-    """R13: `in &E {` where E is an ident chain ending in `.edges` -> `in E.iter() {`"""
-    def f(m):
-        ctx.note('R13', m.group(0), 'in %s.iter() {' % m.group(1))
-        return 'in %s.iter() {' % m.group(1)
-    return re.sub(r'in &([\w.]*\.edges) \{', f, text)
+def rule_btree_iter(text, ctx, bind=False):
+    """R13: `for PAT in &E {B}` where E is an ident chain ending in `.edges` -> `for PAT in E.iter() {B}`
+    (R13b: the iterator is bound first: `{ let verif_iter2 = E.iter(); for PAT in verif_iter2 {B} }`)."""
+    if not bind:
+        def f(m):
+            ctx.note('R13', m.group(0), 'in %s.iter() {' % m.group(1))
+            return 'in %s.iter() {' % m.group(1)
+        return re.sub(r'in &([\w.]*\.edges) \{', f, text)
+    while True:
+        m = re.search(r'for ([^{;]*?) in &([\w.]*\.edges) \{', text)
+        if not m:
+            return text
+        toks = L.code_toks(text)
+        brace = None
+        for i, t in enumerate(toks):
+            if t.s == m.end() - 1:
+                brace = i
+                break
+        close = L.match_close(toks, brace)
+        body = text[toks[brace].e:toks[close].s]
+        new = '{ let verif_iter2 = %s.iter(); for %s in verif_iter2 {%s} }' % (m.group(2), m.group(1), body)
+        ctx.note('R13b', m.group(0), '{ let verif_iter2 = %s.iter(); for %s in verif_iter2 {' % (m.group(2), m.group(1)))
+        text = text[:m.start()] + new + text[toks[close].e:]
 
 
 def rule_foreach(text, ctx, bind=False):
@@ -442,6 +459,54 @@ def rule_enumerate(text, ctx):
         return new
     text = re.sub(r'for \((\w+), &(\w+)\) in ([\w.]+)\.iter\(\)\.enumerate\(\)\.skip\(([\w.]+)\) \{', f2, text)
     return text
+
+
+def rule_guarded_continue(text, ctx):
+    """R18: inside a `for` body, `if COND { continue; } REST` -> `if !(COND) { REST }` (Verus for-loops have no continue)."""
+    while True:
+        toks = L.code_toks(text)
+        hit = None
+        for i, t in enumerate(toks):
+            if t.kind == 'ident' and t.text == 'continue' and toks[i + 1].text == ';' and toks[i - 1].text == '{' and toks[i + 2].text == '}':
+                # find the `if` that owns this block
+                k = i - 2
+                depth = 0
+                while k >= 0 and not (toks[k].kind == 'ident' and toks[k].text == 'if' and depth == 0):
+                    if toks[k].text in L.CLOSE:
+                        depth += 1
+                    elif toks[k].text in L.OPEN:
+                        depth -= 1
+                    k -= 1
+                if k < 0:
+                    continue
+                # enclosing loop must be a `for`
+                encl = None
+                for j in range(k - 1, -1, -1):
+                    if toks[j].text == '{' and L.match_close(toks, j) > i:
+                        encl = j
+                        break
+                if encl is None:
+                    continue
+                # find loop keyword for encl brace
+                m = encl - 1
+                while m >= 0 and not (toks[m].kind == 'ident' and toks[m].text in ('for', 'while', 'loop')):
+                    if toks[m].text in (';', '}', '{'):
+                        break
+                    m -= 1
+                if m < 0 or toks[m].text != 'for':
+                    continue
+                close = L.match_close(toks, encl)
+                cond = text[toks[k].e:toks[i - 1].s].strip()
+                rest_s = toks[i + 2].e
+                rest_e = toks[close].s
+                hit = (toks[k].s, rest_s, rest_e, cond)
+                break
+        if not hit:
+            return text
+        ifs, rest_s, rest_e, cond = hit
+        new = 'if !(%s) {%s}' % (cond, text[rest_s:rest_e])
+        ctx.note('R18', 'if %s { continue; } REST' % cond, 'if !(%s) { REST }' % cond)
+        text = text[:ifs] + new + text[rest_e:]
 
 
 def rule_fold(text, ctx):
@@ -561,8 +626,12 @@ def apply_fn(text, spec, ctx, assoc_types=None, canary=False):
         text = rule_foreach(text, ctx, bind=True)
     if 'R13' in spec.rules:
         text = rule_btree_iter(text, ctx)
+    if 'R13b' in spec.rules:
+        text = rule_btree_iter(text, ctx, bind=True)
     if 'R7' in spec.rules:
         text = rule_enumerate(text, ctx)
+    if 'R18' in spec.rules:
+        text = rule_guarded_continue(text, ctx)
     text = rule_get_unchecked(text, ctx)
     text = rule_debug_assert(text, ctx)
     if 'R8c' in spec.rules:
